@@ -44,6 +44,8 @@ type Cfg struct {
 	Filters   bool // (E)[p], (E)/step, $v/step forms
 	Unions    bool
 	Abbrev    int // percent of steps spelled with abbreviations when possible
+
+	IntPredsOnly bool // no fractional numeric predicate literals (engines disagree with the recommendation there)
 }
 
 type Gen struct {
@@ -160,6 +162,9 @@ func (g *Gen) Pred(depth int) Expr {
 	case 0, 1:
 		return N(float64(r.Range(1, 4)))
 	case 2:
+		if g.C.IntPredsOnly {
+			return rng.Pick(r, []Expr{N(0), N(7)})
+		}
 		return rng.Pick(r, []Expr{N(0), N(7), N(1.5), N(0.5), N(2.0000001)})
 	case 3:
 		if g.has("last") {
